@@ -214,7 +214,7 @@ func runCmd(argv []string) int {
 	if entryFn == nil {
 		return fail("entry function not found: " + *entry)
 	}
-	initPkgs := []string{"io", "context", *mod + "/logger", *mod + "/pkg", *mod + "/model", *mod + "/ast", *mod + "/engine"}
+	initPkgs := []string{"io", "time", "context", *mod + "/logger", *mod + "/pkg", *mod + "/model", *mod + "/ast", *mod + "/engine"}
 	initPkgs = append(initPkgs, inits...)
 	seenInit := map[string]bool{}
 	for _, p := range initPkgs {
